@@ -1082,13 +1082,18 @@ func (s *Server) Get(req *protoobject.GetRequest, gStream protoobject.ObjectServ
 		return forwardGetRequest(ctx, req, gStream, node)
 	})
 
-	p.WithECTransport(&getECTransport{
-		server:           s,
-		requestContainer: cnrID,
-		requestObject:    objID,
-		signResponses:    needSignResp,
-		responseStream:   gStream,
-	})
+	if !recheckEACL {
+		// EC transport writes the object directly to the response stream and
+		// knows nothing about eACL, so it can't be used if the header is still
+		// to be checked: regular path does the check when the header is written
+		p.WithECTransport(&getECTransport{
+			server:           s,
+			requestContainer: cnrID,
+			requestObject:    objID,
+			signResponses:    needSignResp,
+			responseStream:   gStream,
+		})
+	}
 
 	// TODO: consider optimization
 	// We could acquire ~256K buffer (like for chunks) if storage would try to read it full.
